@@ -1088,8 +1088,13 @@ class Module(ABC):
                 pad(inds) if inds.shape[0] < max_len else inds for inds in comp_inds
             ]
 
-        # Sorted inds are only used to infer the correct starting values.
-        indices_per_param = jnp.stack(comp_inds)
+        # Sorted inds are only used to infer the correct starting values. Smaller
+        # groups were padded with `-1` above (needed for the `nanmean` below). As
+        # indices for setting the parameter, `-1` would address the last compartment of
+        # the module, so we pad with a member of the group itself instead.
+        indices_per_param = jnp.stack(
+            [np.where(inds == -1, inds[0], inds) for inds in comp_inds]
+        )
 
         # Assign dummy param (ignored by nanmean later). This adds a new row to the
         # `data` (which is, e.g., self.nodes). That new row has index `-1`, which does
@@ -1355,6 +1360,13 @@ class Module(ABC):
             key = parameter["key"]
             inds = parameter["indices"]
             set_param = parameter["val"]
+            if key in self.base.synapse_state_names:
+                # Synaptic states are stored separately for every synapse type (as are
+                # synaptic parameters, see `get_all_parameters()`).
+                synapse_inds = self.base.edges.groupby("type").rank()[
+                    "global_edge_index"
+                ]
+                inds = (synapse_inds.astype(int) - 1).to_numpy()[inds]
             if key in states:  # Only initial states, not parameters.
                 # `inds` is of shape `(num_params, num_comps_per_param)`.
                 # `set_param` is of shape `(num_params,)`
